@@ -50,14 +50,15 @@ INVARIANTS = ["DepthOK", "CaseWellFormed", "PairOK", "ScopeNotEmpty"]
 # ------------------------------------------------------------ TLC: cases ---
 
 def knobs(tier, name):
+    """scope selection only: which groups, how many positions per position class, lexemes per position, pairs"""
     if tier == "thorough":
         if name == "compact":
-            return dict(groups=ALL_GROUPS, per=0, lex=0, names=0, stride=420, trunc=1)
+            return dict(groups=ALL_GROUPS, per=0, lex=0, names=0, pairs=3000, trunc=1)
         if name == "rules":
-            return dict(groups=["drop", "number", "name", "move", "retarget", "header", "constant"], per=1, lex=8, names=6, stride=900, trunc=50)
+            return dict(groups=["drop", "number", "name", "move", "retarget", "header", "constant"], per=1, lex=3, names=3, pairs=1500, trunc=50)
         return dict(groups=["drop", "number", "name", "move", "retarget", "header", "constant", "include", "doc"],
-                    per=1, lex=6, names=5, stride=1500, trunc=25)
-    return dict(groups=ALL_GROUPS, per=1, lex=4, names=4, stride=3500, trunc=16)
+                    per=1, lex=3, names=3, pairs=1000, trunc=25)
+    return dict(groups=ALL_GROUPS, per=1, lex=4, names=4, pairs=1300, trunc=16)
 
 
 def tlc_base(job):
@@ -72,8 +73,8 @@ def tlc_base(job):
         k = dict(k, groups=[g for g in k["groups"] if g in os.environ["VERIF_C09_GROUPS"].split(",")])
     body = "DocDef == %s\nGroupsDef == {%s}\n" % (gg.doc_tla(rows), ", ".join(sch.tla_str(g) for g in k["groups"]))
     cfg = ("CONSTANTS\n Doc <- DocDef\n BaseName = %s\n NTok = %d\n Groups <- GroupsDef\n PerClass = %d\n LexPer = %d\n NamePer = %d\n"
-           " Seed = %d\n PairStride = %d\n TruncStep = %d\n MaxDepth = 2\nINIT Init\nNEXT Next\nVIEW View\nCONSTRAINT Emit\n" % (
-               sch.tla_str(name), ntok, k["per"], k["lex"], k["names"], seed % 1000, k["stride"], k["trunc"]))
+           " Seed = %d\n PairBudget = %d\n TruncStep = %d\n MaxDepth = 2\nINIT Init\nNEXT Next\nVIEW View\nCONSTRAINT Emit\n" % (
+               sch.tla_str(name), ntok, k["per"], k["lex"], k["names"], seed % 1000, k["pairs"], k["trunc"]))
     cfg += "".join("INVARIANT %s\n" % i for i in INVARIANTS)
     d = os.path.join(wd, "mc_" + name)
     vlib.mc(d, "MC_Garble", "Garble", body, cfg)
